@@ -37,10 +37,11 @@ VALUE_POOL = [
     ("IntP", 0, None), ("IntP", 1, None), ("IntP", -1, None), ("IntP", 2, None), ("IntP", 2 ** 53 + 1, None),
     ("FloatP", 0.0, None), ("FloatP", -0.0, None), ("FloatP", 0.5, None), ("FloatP", 1.0, None), ("FloatP", 3.5, 3),
     ("FloatP", 0.0, 7), ("FloatP", 2.0, 0), ("BoolP", 0, 0), ("BoolP", 1, 5), ("StrP", "", b""), ("StrP", "a", b"a"),
+    ("FloatP", 2.5000000000000004, None), ("FloatP", 3.4999999999999996, None),      # one ulp off a literal
     ("StrP", "ON", 1), ("BinP", b"", None), ("BinP", b"\x00", None), ("IntP", 3, None), ("FloatP", 3.5, None),
 ]
 LITS = ["0", "1", "-1", "2", "3", "0.5", "1.0", "3.0", "3.5", "a", "", "ON", "1e3", "abc", " 1 ", "+2", "0.0", "-0.0",
-        "9007199254740993"]
+        "9007199254740993", "2.5"]
 
 
 def rand_items(rng, names=("A", "B", "C", "D")):
@@ -129,6 +130,10 @@ def generate(rng, tier):
             for lit in rng.sample(LITS, 4):
                 yield (f"crit (bexpr {sx(cond_sx('L', op, None, lit, rng.random() < 0.5, False))}) "
                        f"{sx([P('L', *a)])} -"), "condition-lit"
+    # floats one ulp away from the literal: equality is exact
+    for val, lit in ((2.5000000000000004, "2.5"), (3.4999999999999996, "3.5")):
+        for op in ("==", "!=", "eq", "neq", "<", ">", "<=", ">="):
+            yield f"crit {sx(cmp_sx('Z', op, lit, True))} {sx([P('Z', 'FloatP', val)])} -", "comparison-ulp"
     # integers beyond 2**53 against literals one apart: exact integer comparison, in both criteria forms and selectors
     for big in (2 ** 53 + 1, 2 ** 63 - 1, 2 ** 64 - 1, -(2 ** 63), 2 ** 71 + 3):
         for op in ("==", "!=", "<", ">", "<=", ">="):
